@@ -39,6 +39,10 @@ pub fn fmt_opaque() -> String { String::new() }
 
 pub use core::cmp::Ordering;
 pub use core::fmt;
+// E2: qualified paths into dependency crates resolve against the flat namespace of this file
+pub mod cosmwasm_std { pub use super::*; }
+pub mod cw_utils { pub use super::*; }
+pub mod cw_storage_plus { pub use super::*; }
 pub type SMap<K, V> = vstd::map::Map<K, V>;
 pub type Raw = vstd::map::Map<Seq<u8>, Seq<u8>>;
 
@@ -79,6 +83,15 @@ pub assume_specification<T, P: FnOnce(&T) -> bool> [ Option::<T>::filter ] (o: O
     ensures r == (match o { Some(x) => if p.ensures((&x,), true) { Some(x) } else { None::<T> }, None => None::<T> }),
         o is Some ==> p.ensures((&o->Some_0,), true) || p.ensures((&o->Some_0,), false);
 
+/// E17: `String == &str` (std `impl PartialEq<&str> for String`, which Verus cannot give a specification)
+#[verifier::external_body]
+pub fn string_eq_str(a: &String, b: &str) -> (r: bool) ensures r == (a@ == b@) { a == b }
+pub assume_specification [ <String as PartialEq<str>>::eq ] (a: &String, b: &str) -> (r: bool)
+    ensures r == (a@ == b@);
+
+pub assume_specification<T: Ord + core::marker::Destruct> [ core::cmp::max ] (a: T, b: T) -> (r: T)
+    ensures T::obeys_cmp_spec() ==> r == (if a.cmp_spec(&b) is Greater { a } else { b });
+
 // str helpers whose results no contract depends on (uninterpreted results)
 pub assume_specification [ str::trim ] (s: &str) -> (r: &str);
 
@@ -95,6 +108,8 @@ pub uninterp spec fn unutf8(b: Seq<u8>) -> Seq<char>;
 pub broadcast axiom fn ax_utf8(s: Seq<char>) ensures unutf8(#[trigger] utf8(s)) == s;
 
 pub open spec fn into_string_spec<T: Into<String>>(t: T) -> String { <T as IntoSpec<String>>::into_spec(t) }
+pub broadcast axiom fn ax_vec_ext<T>(a: Vec<T>, b: Vec<T>)
+    ensures #![trigger a@, b@] a@ == b@ ==> a == b;
 pub broadcast axiom fn ax_string_ext(a: String, b: String)
     ensures #![trigger a@, b@] a@ == b@ ==> a == b;
 
@@ -117,6 +132,17 @@ impl PartialOrdSpecImpl for Uint128 {
 impl PartialOrd for Uint128 {
     fn partial_cmp(&self, o: &Uint128) -> (r: Option<core::cmp::Ordering>) {
         if self.0 < o.0 { Some(core::cmp::Ordering::Less) } else if self.0 == o.0 { Some(core::cmp::Ordering::Equal) } else { Some(core::cmp::Ordering::Greater) }
+    }
+}
+impl OrdSpecImpl for Uint128 {
+    open spec fn obeys_cmp_spec() -> bool { true }
+    open spec fn cmp_spec(&self, o: &Uint128) -> core::cmp::Ordering {
+        if self.0 < o.0 { core::cmp::Ordering::Less } else if self.0 == o.0 { core::cmp::Ordering::Equal } else { core::cmp::Ordering::Greater }
+    }
+}
+impl Ord for Uint128 {
+    fn cmp(&self, o: &Uint128) -> (r: core::cmp::Ordering) {
+        if self.0 < o.0 { core::cmp::Ordering::Less } else if self.0 == o.0 { core::cmp::Ordering::Equal } else { core::cmp::Ordering::Greater }
     }
 }
 impl core::default::Default for Uint128 { fn default() -> (r: Self) ensures r.0 == 0 { Uint128(0) } }
@@ -295,7 +321,14 @@ impl Clone for Coin { #[verifier::external_body] fn clone(&self) -> (r: Self) en
 impl PartialEqSpecImpl for Coin { open spec fn obeys_eq_spec() -> bool { true } open spec fn eq_spec(&self, o: &Coin) -> bool { *self == *o } }
 impl PartialEq for Coin { #[verifier::external_body] fn eq(&self, o: &Coin) -> (r: bool) { unimplemented!() } }
 #[verifier::external_body]
-pub fn coin(amount: u128, denom: impl Into<String>) -> (r: Coin) { unimplemented!() }
+pub fn coin<D: Into<String>>(amount: u128, denom: D) -> (r: Coin)
+    ensures r.amount.0 == amount, <D as IntoSpec<String>>::obeys_into_spec() ==> r.denom == into_string_spec(denom)
+{ unimplemented!() }
+/// cosmwasm_std::coins: a one-element vector
+#[verifier::external_body]
+pub fn coins<D: Into<String>>(amount: u128, denom: D) -> (r: Vec<Coin>)
+    ensures r@.len() == 1, r@[0].amount.0 == amount, <D as IntoSpec<String>>::obeys_into_spec() ==> r@[0].denom == into_string_spec(denom)
+{ unimplemented!() }
 pub struct MessageInfo { pub sender: Addr, pub funds: Vec<Coin> }
 pub struct Empty {}
 impl Clone for Empty { fn clone(&self) -> (r: Self) ensures r == *self { Empty {} } }
